@@ -18,7 +18,7 @@ RULE = (
     "(> 1e-9 is a violation); False => state and dimension untouched and n was not an enlargement; the reported "
     "dimension always equals the stored array's Fock axis length. Domain B: Displace / Squeeze / Expresion / "
     "ladder / phase operations with complex parameters of any phase on those states; oracle B: differential "
-    "against the ideal action computed at cut-off 26+occupation (5e-3 for displacement/squeezing, 1e-8 exact "
+    "against the ideal action computed at cut-off 26+occupation (2.5e-3 for displacement/squeezing, 1e-8 exact "
     "otherwise) - a too small automatically chosen cut-off shows up as a distance. Non-trivial = a resize with n "
     "within +-1 of the highest occupied level, or a displacement/squeezing with both real and imaginary part "
     "non-zero; distinct = (call, entry, storage, representation, direction, edge offset, layout hash)."
@@ -28,7 +28,7 @@ ASSUMPTIONS = ["reference self-tests passed", "|alpha| <= 1, |zeta| <= 0.6, occu
 
 
 def strategy(tier):
-    return S.program_case(["resize", "resize", "resize", "op", "bigop"], max_steps=3)
+    return S.program_case(["resize", "resize", "resize", "op", "bigop", "bigop"], max_steps=3)
 
 
 def run_case(case):
